@@ -145,7 +145,9 @@ func c06Scenarios() []*c06Scenario {
 			_, err := w.C("d", "c").InsertMany(w.Ctx, []interface{}{bD("_id", int32(4)), bD("_id", int32(5))})
 			return ack(err)
 		},
-		in: func(cat *lungo.Catalog) bool { return c06Has(cat, "d", "c", int32(4)) && c06Has(cat, "d", "c", int32(5)) }}
+		in: func(cat *lungo.Catalog) bool {
+			return c06Has(cat, "d", "c", int32(4)) && c06Has(cat, "d", "c", int32(5))
+		}}
 	ttl := func(w *world.World) {
 		seed(w)
 		if _, err := w.C("d", "t").Indexes().CreateOne(w.Ctx, mongoIndex(bD("at", int32(1)), options.Index().SetExpireAfterSeconds(1))); err != nil {
@@ -171,7 +173,9 @@ func c06Scenarios() []*c06Scenario {
 	}
 }
 
-func mongoIndex(keys bson.D, o *options.IndexOptions) mongo.IndexModel { return mongo.IndexModel{Keys: keys, Options: o} }
+func mongoIndex(keys bson.D, o *options.IndexOptions) mongo.IndexModel {
+	return mongo.IndexModel{Keys: keys, Options: o}
+}
 
 // c06RunSched runs one scenario under the scheduler.
 func c06RunSched(r violator, sc *c06Scenario, prefix, expectN []int, outcomes map[string]bool) *sched.Result {
